@@ -303,10 +303,10 @@ pub fn run(cfg: &Cfg, rep: &mut Report) -> PropMeta {
     run_cases(cfg, "mid_rotations", cfg.n(40, 600) as u64, rep, |i, rng, rep| rotations_exact(cfg, "mid_rotations", i, rng, rep, mid));
     run_cases(cfg, "mid_ckks", cfg.n(40, 600) as u64, rep, |i, rng, rep| ckks_case(cfg, "mid_ckks", i, rng, rep, &[64, 128]));
     run_cases(cfg, "mid_keyswitch", cfg.n(40, 600) as u64, rep, |i, rng, rep| keyswitch_case(cfg, "mid_keyswitch", i, rng, rep, &[64, 256, 1024, 4096]));
-    if !cfg.quick() {
-        run_cases(cfg, "big_rotations", 24, rep, |i, rng, rep| rotations_exact(cfg, "big_rotations", i, rng, rep, &[1024, 4096]));
-        run_cases(cfg, "big_apply_galois", 24, rep, |i, rng, rep| apply_galois_exact(cfg, "big_apply_galois", i, rng, rep, &[1024, 4096]));
-    }
+    // large degrees (few cases in quick): element arithmetic modulo 2N, NAF depth and table sizes only differ up there
+    run_cases(cfg, "big_rotations", cfg.pick(4, 24), rep, |i, rng, rep| rotations_exact(cfg, "big_rotations", i, rng, rep, &[1024, 4096, 8192]));
+    run_cases(cfg, "big_apply_galois", cfg.pick(3, 24), rep, |i, rng, rep| apply_galois_exact(cfg, "big_apply_galois", i, rng, rep, &[1024, 4096, 8192]));
+    run_cases(cfg, "big_ckks", cfg.pick(3, 24), rep, |i, rng, rep| ckks_case(cfg, "big_ckks", i, rng, rep, cfg.pick(&[1024, 2048][..], &[1024, 2048, 4096][..])));
     PropMeta {
         id: "C04", level: "exploration",
         rule: "N=4..32: every odd Galois element g<2N through apply_galois (BFV/BGV exact polynomials, CKKS coefficient vectors) and every rotation step -(N/2-1)..N/2-1 through rotate_rows / rotate_vector with (a) keys for exactly those steps and (b) the default power-of-two key set (NAF composition), rotate_columns, complex_conjugate, at every level, random API form, seeded and unseeded keys; secret-key switching s' -> s in three schemes at every level; N=64..4096 sampled. distinct = distinct (operation, scheme, key set, N, level, element/step) tuples",
